@@ -489,11 +489,23 @@ def NEST(tier='quick'):
         ('SET', (('s', ('SETOF', INT), 'R', None), ('p', STR('PrintableString'), 'O', None), ('u', STR('UTCTime'), 'R', None))),
         ('SET', (('a', E(5, OCTS), 'R', None), ('b', I(6, BOOL), 'R', None), ('c', E(7, INT), 'O', None))),
         ('SEQ', (('w', ('SET', (('x', E(2, BOOL), 'R', None), ('y', I(3, OCTS), 'R', None))), 'R', None), ('z', INT, 'O', None))),
+        # an untagged CHOICE nested in an untagged CHOICE member: placed by the alternative chosen (DER) /
+        # the smallest alternative (CER)
+        ('SET', (('c', ('CHOICE', (('n', ('CHOICE', (('i', INT), ('o', OCTS)))), ('r', UTF8))), 'R', None),
+                 ('b', BOOL, 'R', None), ('u', NULL, 'R', None))),
     ]
     for T in order_sets:
         assert M.legal(T), T
         for v in _nest_values(T, 6 if tier == 'quick' else 12):
             yield T, v
+
+    # DEFAULT component of CHOICE type whose alternatives can hold equal contents
+    chdef = ('CHOICE', (('a', I(0, INT)), ('b', I(1, INT)), ('s', I(2, OCTS))))
+    for kind in ('SEQ', 'SET'):
+        T = (kind, (('h', I(30, INT), 'R', None), ('c', chdef, 'D', M.freeze(('a', 5)))))
+        assert M.legal(T)
+        for cv in (('a', 5), ('b', 5), ('a', 6), ('b', 0), ('s', b'')):
+            yield T, {'h': 1, 'c': cv}
 
     # DEFAULT components of record type whose members are all OPTIONAL/DEFAULT: non-empty default vs. empty value etc.
     allopt = ('SEQ', (('a', INT, 'O', None), ('b', OCTS, 'O', None)))
